@@ -27,19 +27,28 @@ func (a Message) Compare(b Message) int {
 }
 
 func ParseMessageExpression(rawExpression string) Message {
-	// result
-	expression := rawExpression
-	var variables []string
-
 	// find variables
 	re := regexp.MustCompile(`\{\{\s*([\w-]+\.[\w-]+)\s*}}`)
-	for _, v := range re.FindAllStringSubmatch(rawExpression, -1) {
-		expression = strings.ReplaceAll(expression, v[0], "%v") // replace variable by template string variable
-		variables = append(variables, v[1])
+	matches := re.FindAllStringSubmatchIndex(rawExpression, -1)
+	if len(matches) == 0 {
+		return Message{rawExpression, nil}
 	}
 
+	// the expression becomes a sprintf format: each variable is a %v verb and a percent sign in the
+	// surrounding text has to be written %% to stay a percent sign
+	var expression strings.Builder
+	var variables []string
+	last := 0
+	for _, m := range matches {
+		expression.WriteString(strings.ReplaceAll(rawExpression[last:m[0]], "%", "%%"))
+		expression.WriteString("%v") // replace variable by template string variable
+		variables = append(variables, rawExpression[m[2]:m[3]])
+		last = m[1]
+	}
+	expression.WriteString(strings.ReplaceAll(rawExpression[last:], "%", "%%"))
+
 	return Message{
-		expression,
+		expression.String(),
 		variables,
 	}
 }
